@@ -68,6 +68,11 @@ func replayJson(line []byte, a *Acc) {
 			one(fmt.Sprintf("json:bytes:%s:safe=%v", c.Shape, c.Safe), fmt.Sprintf("Json = %q, specification %q", b, c.X))
 			continue
 		}
+		// nothing to indent with: still the requested encoding (default / safe), one value
+		if b0, e0 := m.JsonIndent("", "", c.Safe); e0 != nil || !sameJSONBytes(b0, b) {
+			one(fmt.Sprintf("json:indent-empty:safe=%v", c.Safe), fmt.Sprintf("JsonIndent(\"\", \"\", %v) = %q (err %v) does not compact to Json = %q", c.Safe, b0, e0, b))
+			continue
+		}
 		// a returned result belongs to the caller: encoding another Map must not change it
 		keep := string(b)
 		keepi := string(bi)
@@ -129,7 +134,9 @@ func replayJsonIn(line []byte, a *Acc) {
 		panic(err)
 	}
 	defer func() { mxj.JsonUseNumber = false }()
-	one := func(sig, detail string) { a.Mis(sig, fmt.Sprintf("input %q (first value: %s): %s", l.Text, l.Kind, detail), l) }
+	orig := l
+	l.Text = strings.NewReplacer("%", "\f", "`", "\u00a0").Replace(l.Text) // placeholders of the specification's alphabet
+	one := func(sig, detail string) { a.Mis(sig, fmt.Sprintf("input %q (first value: %s): %s", l.Text, l.Kind, detail), orig) }
 	// independent oracle: what encoding/json makes of the first value
 	var first interface{}
 	oerr := json.NewDecoder(strings.NewReader(l.Text)).Decode(&first)
@@ -198,6 +205,15 @@ func replayJsonIn(line []byte, a *Acc) {
 	if l.Kind == "arr" && strings.HasPrefix(l.Text, " ") {
 		a.Sample(l)
 	}
+}
+
+// sameJSONBytes: equal after json.Compact (escape sequences are kept by Compact, so safe and default encodings differ)
+func sameJSONBytes(a, b []byte) bool {
+	var ca, cb bytes.Buffer
+	if json.Compact(&ca, a) != nil || json.Compact(&cb, b) != nil {
+		return false
+	}
+	return ca.String() == cb.String()
 }
 
 // numerals keep their exact text with JsonUseNumber (one fixed catalogue, differential with encoding/json)
